@@ -46,7 +46,8 @@ PROFILE = {
 }
 CFG = {"oracles": ("failed",), "n_bundles": 18, "tie": False, "hook": "gx.refs_oracle.install",
        "refs_oracles": ("c11",), "profile": PROFILE, "gen_opts": {"dup_rows": 0.04}}
-SCENARIOS = ("c11-clean", "c11-same-row-twice", "c11-both-sides-one-action", "c11-add-under-dangling-id")
+SCENARIOS = ("c11-clean", "c11-same-row-twice", "c11-both-sides-one-action", "c11-add-under-dangling-id",
+             "c11-trigger-formula-side")
 
 
 def run(ck):
